@@ -365,7 +365,7 @@ def gen_profile(rng, n, maxb=60):
 
 
 def pick_n(rng):
-    return rng.choice([2, 2, 3, 3, 3, 3, 4, 4, 4, 4, 5, 5, 5, 6])
+    return rng.choice([2, 3, 3, 4, 4, 4, 5, 5, 5, 5, 5, 6])
 
 
 def gen_case(rng, n=None, maxb=60):
